@@ -267,7 +267,7 @@ pub fn run(run: &Run) {
         (2u8..=12, topo, any::<u8>(), prop_oneof![2 => Just(0u16), 2 => 1u16..1500, 1 => 1500u16..3000], prop::collection::vec(op, 2..=maxops), prop::collection::vec(silence, 0..4), prop::option::weighted(0.7, (any::<u8>(), 0u16..5000)))
             .prop_map(|(n, topo, id_seed, jitter_ms, ops, silences, stop)| Case { n, topo, id_seed, jitter_ms, ops, silences, stop })
     };
-    run.prop_f("scenario", run.tier.pick(300, 5000), sh, case, run_case);
+    run.prop_f("scenario", run.tier.pick(4500, 50000), sh, case, run_case);
 }
 
 pub fn replay(run: &Run, sub: &str, case: &Value) -> Option<bool> {
